@@ -337,6 +337,51 @@ func c20(r *core.Report) {
 		}
 	}
 
+	// ---- C20-ACCEPT-TRUTH: the accepted count DHTPut reports is the sum of the responders' Accepted flags. An
+	// honest responder stored the value whenever the cache did not evict that very entry: when nothing was evicted
+	// (free space, or an overwrite of a key it already holds, which Cache.Update reports as (nil, false)) the
+	// answer is "accepted", whatever else the responder knows.
+	r.Rule("C20-ACCEPT-TRUTH", "wasAccepted returns true on every path on which no entry was evicted", 1)
+	if wa := needFn(r, "p/kademlia", "wasAccepted"); wa != nil {
+		r.Analysed(wa)
+		var ev ssa.Value
+		for _, prm := range wa.Params {
+			if _, isPtr := prm.Type().Underlying().(*types.Pointer); isPtr {
+				ev = prm
+			}
+		}
+		if ev == nil {
+			r.Fail("C20-ACCEPT-TRUTH: wasAccepted has no evicted-entry parameter")
+		} else {
+			// keep only the edges on which evicted == nil is possible: cut the edges where it is known non-nil
+			cutNonNil := core.CutWhere(func(cond ssa.Value) int {
+				x, isEq, ok := core.NilCheck(cond)
+				if !ok || core.Through(x) != ev {
+					return 0
+				}
+				if isEq {
+					return -1 // non-nil is known on the false edge of `evicted == nil`
+				}
+				return 1
+			})
+			reached := core.Reach(wa, nil, cutNonNil, nil)
+			pe := &core.PathEval{Reached: reached, Cut: cutNonNil}
+			okAll := core.GuardEdges(wa, cutNonNil) > 0
+			for _, ret := range core.Returns(wa) {
+				if !reached[ret] {
+					continue
+				}
+				for _, v := range core.ReturnValues(ret, 0) {
+					if !pe.AlwaysBool(v, true) {
+						okAll = false
+					}
+				}
+			}
+			r.Check(okAll, "C20-ACCEPT-TRUTH", core.FnName(wa), p.Pos(wa.Pos()), "with no eviction the put is reported as accepted",
+				"wasAccepted can report 'not accepted' although nothing was evicted: a responder that overwrote a key it already held (Update returns (nil, false)) denies having stored the value, DHTPut under-counts and fails although enough nodes hold it")
+		}
+	}
+
 	// ---- C20-TRUTH
 	r.Rule("C20-TRUTH", "results and errors of the iterative operations are guarded by the conditions they report", 8)
 	fieldCmp := func(op token.Token, xName, yName string) func(ssa.Value) bool {
